@@ -77,6 +77,13 @@ def one(args):
 
     area = bytes(row["area"])
     data, off, decoded = embed(area, container, posclass, seed)
+    if seed % 3 == 0:
+        # the public scanner takes the key of the guard configuration as an argument: a scan with another key (which finds
+        # nothing here) must not influence the scans that follow in this process
+        try:
+            list(guardrails.iter_guardrail_configs(io.BytesIO(data[:30000]), xorkey=b"\x5c"))
+        except Exception:  # noqa: BLE001
+            pass
     res = {"container": container, "pos": posclass, "offset": off, "len": len(data)}
     o = core.guarded(beacon.BeaconConfig.from_bytes, data, seconds=300)
     if o[0] == "ok":
@@ -184,7 +191,8 @@ CHECK_DEADLOCK FALSE
                     ctx.violation("guard metadata alone should be reported for an area whose checksum does not match", {**m, "failed": "guard_only"}, brief)
         # event for TLC (code -> spec)
         if isinstance(res["iter"], list) and res["iter"]:
-            x = res["iter"][0]
+            # (a spurious marker in front of the real border is reported as guard metadata alone; the event is the recovered one)
+            x = next((y for y in res["iter"] if y[4]), res["iter"][0])
             ev.append({"area": row["area"], "guard": x[5], "reported": x[4], "key": x[3] or [0], "stored": x[2], "body": L(bodies[row["body"] - 1]),
                        "truekey": row["key"], "expect_reported": row["reportable"]})
         ctx.count_distinct((row["body"], row["keylen"], tuple(row["opts"]), row["kind"], container, pos))
@@ -224,12 +232,32 @@ CHECK_DEADLOCK FALSE
         jobs2.append(({"body": len(bodies), "area": L(area), "key": L(key), "keylen": n, "opts": ["computer", "ip"], "kind": "none", "stored": stored, "reportable": True}, "raw", "mid", rng.randrange(1 << 30)))
         n_tie += 1
     ctx.notes["tie_bodies"] = n_tie
+    # a spurious marker inside the masked configuration itself: twelve bytes in its last 2 KiB that mirror each other the way the
+    # real border between configuration and guard area does. The candidate has no matching checksum; the scan must go on to
+    # the real border behind it.
+    import struct as _st
+
+    for n in ([7, 100] if q else [2, 7, 16, 100, 255]):
+        key = bytes(rng.randrange(1, 256) for _ in range(n))
+        cfgb = bytearray(bodies[0].ljust(6144, b"\x00"))
+        keyrep = (key * (6144 // n + 1))[:6144]
+        pp = 6144 - rng.choice([12, 500, 1000, 2050])
+        start = _st.pack(">HHH", refguard.OPT["user"], 1, 2)
+        masked_a = bytes(cfgb[pp + j] ^ keyrep[pp + j] ^ 0x2E for j in range(6))
+        target_b = bytes(x ^ y ^ 0x8A for x, y in zip(masked_a[::-1], start))
+        for j in range(6):
+            cfgb[pp + 6 + j] = target_b[j] ^ keyrep[pp + 6 + j] ^ 0x2E
+        bodies.append(bytes(cfgb))
+        area, stored = refguard.protect(bytes(cfgb), key, ["computer"])
+        if not any(bytes(a ^ b for a, b in zip(area[i : i + 6][::-1], area[i + 6 : i + 12])) == bytes(x ^ 0x8A for x in start) for i in (pp,)):
+            raise core.MachineryError("the crafted spurious marker is not a marker")
+        jobs2.append(({"body": len(bodies), "area": L(area), "key": L(key), "keylen": n, "opts": ["computer"], "kind": "none", "stored": stored, "reportable": True}, "raw", ("guard_at", 20000 + rng.randrange(100)), rng.randrange(1 << 30)))
     with mp.get_context("fork").Pool(14) as pool:
         results2 = pool.map(one, jobs2, chunksize=1)
     for (row, container, pos, _s), res in zip(jobs2, results2):
         ctx.evaluations += 2
         if isinstance(res["iter"], list) and res["iter"]:
-            x = res["iter"][0]
+            x = next((y for y in res["iter"] if y[4]), res["iter"][0])
             ev.append({"area": row["area"], "guard": x[5], "reported": x[4], "key": x[3] or [0], "stored": x[2], "body": L(bodies[row["body"] - 1]),
                        "truekey": row["key"], "expect_reported": row["reportable"]})
         else:
